@@ -112,7 +112,9 @@ macro_rules! arr_like {
             let mut want = fields.clone(); want.swap(i, j);
             $ctx.misc.rec(vec![$(m.$f),+] == want, || format!("{}.swap_elements({}, {})", $tn, i, j));
         }}
-        $ctx.misc.rec(panics(|| { let mut m = v; m.swap_elements(0, $n); }), || format!("{}.swap_elements out of range must panic", $tn));
+        $ctx.misc.rec(panics(|| { let mut m = v; m.swap_elements(0, $n); }) && panics(|| { let mut m = v; m.swap_elements($n, 0); })
+            && (cfg!(miri) || (panics(|| { let mut m = v; m.swap_elements($n, $n); }) && panics(|| { let mut m = v; m.swap_elements($n + 3, $n + 3); }))),
+            || format!("{}.swap_elements out of range must panic (also when both indices are equal)", $tn));
         // map / zip / from_value
         let mapped = v.map(|e| (e, 7u8));
         $ctx.misc.rec(vec![$(mapped.$f),+] == fields.iter().map(|e| (*e, 7u8)).collect::<Vec<_>>(), || format!("{}.map", $tn));
